@@ -323,8 +323,25 @@ func genC10(tier string, seed uint64, emit func(string)) {
 					}
 					seen[key] = true
 					emit(line)
+					if r.Chance(1, 6) {
+						// the same on a server with a password, on a connection that authenticated before: the rejected
+						// request leaves the connection as it was
+						emit(serveLine("pw="+hx([]byte("sesame")), [][]byte{append(append(reqS("AUTH", "sesame"), requestBytes(m.argv, m.nulls)...), ping...)},
+							genScript(r, 2, false), floatTable(m.argv), "class "+m.class+" "+cmd+" authed"))
+					}
 				}
 			}
+		}
+		// ill-formed AUTH requests, before and after a successful AUTH
+		for _, m := range []mutation{
+			{argv: bs("AUTH"), class: "omit"},
+			{argv: [][]byte{[]byte("AUTH"), nil}, nulls: map[int]bool{1: true}, class: "null"},
+			{argv: [][]byte{[]byte("auth"), []byte("user"), nil}, nulls: map[int]bool{2: true}, class: "null"},
+			{argv: [][]byte{[]byte("AUTH"), nil, []byte("sesame")}, nulls: map[int]bool{1: true}, class: "null"},
+		} {
+			emit(serveLine("-", [][]byte{append(requestBytes(m.argv, m.nulls), ping...)}, genScript(r, 2, false), "", "class "+m.class+" AUTH"))
+			emit(serveLine("pw="+hx([]byte("sesame")), [][]byte{append(append(reqS("AUTH", "sesame"), requestBytes(m.argv, m.nulls)...), ping...)},
+				genScript(r, 2, false), "", "class "+m.class+" AUTH authed"))
 		}
 		for _, m := range setExclusive(r) {
 			emit(serveLine("-", [][]byte{append(requestBytes(m.argv, m.nulls), ping...)}, genScript(r, 2, false), floatTable(m.argv), "class "+m.class+" SET"))
@@ -342,6 +359,14 @@ func oracleC10(c *serveCase, extra []string, res *serveResult) (string, []string
 	}
 	calls := hcalls(res)
 	frames, ok := refFrames(res.written)
+	if len(extra) >= 4 && extra[3] == "authed" {
+		// AUTH sesame came first: its +OK, then as below
+		if !ok || len(frames) != 3 || !(frames[0].Kind == 's' && string(frames[0].P) == "OK") {
+			return fmt.Sprintf("fail:expected +OK, an error reply and the PING reply, got %d frames", len(frames)), append(tags, "authed")
+		}
+		frames = frames[1:]
+		tags = append(tags, "authed")
+	}
 	switch {
 	case len(calls) != 0:
 		return "fail:handler invoked for an ill-formed request: " + trunc(calls[0], 100), tags
@@ -669,6 +694,8 @@ func genC07(tier string, seed uint64, emit func(string)) {
 	// many clients going away at the same instant (every connection goroutine unregisters itself at that moment)
 	for _, n := range []int{50, 200} {
 		emit(fmt.Sprintf("massdisc %d %d", n, 1+r.Intn(3)))
+		// configuration traffic racing with connection set-up
+		emit(fmt.Sprintf("cfgstorm %d %d %d", 2+r.Intn(4), 2+r.Intn(6), 700))
 	}
 	// clients that stop reading their replies must not disturb a witness connection
 	for _, store := range []string{"double", "example"} {
@@ -787,6 +814,9 @@ func genC11(tier string, seed uint64, emit func(string)) {
 				}
 			}
 			emit(serveLine("-", [][]byte{b[:cut]}, "r s:4f4b", "", fmt.Sprintf("complete %d", complete)))
+			if cut >= first+len(req)-1 {
+				emit(serveLine("deof", [][]byte{b[:cut]}, "r s:4f4b", "", fmt.Sprintf("complete %d", complete)))
+			}
 		}
 	}
 	for i := 0; i < n; i++ {
@@ -813,7 +843,15 @@ func genC11(tier string, seed uint64, emit func(string)) {
 			if cut > 2 && r.Chance(1, 4) {
 				segs = partition(r, b[:cut], 2+r.Intn(3))
 			}
-			emit(serveLine("-", segs, script, floatTable(p.argvs...), fmt.Sprintf("complete %d", complete)))
+			cfg11 := "-"
+			if cut > 0 && (cut == len(b) || r.Chance(1, 3)) {
+				// the transport delivers the last bytes together with the end of the stream
+				cfg11 = "deof"
+				if cut == len(b) {
+					emit(serveLine("-", segs, script, floatTable(p.argvs...), fmt.Sprintf("complete %d", complete)))
+				}
+			}
+			emit(serveLine(cfg11, segs, script, floatTable(p.argvs...), fmt.Sprintf("complete %d", complete)))
 		}
 	}
 }
